@@ -74,3 +74,36 @@ def open_blocks(logicals):
         if m:
             bal[m.group(1)[3:]] -= 1
     return bal
+
+
+_OPEN_STRICT = re.compile(r'^\s*(?:(?:async\s+)?(function)\s+[A-Za-z_]\w*\s*\(.*\)|(if|while|for)\s+\S.*?)\s*:\s*$')
+_ASSIGN = re.compile(r'^\s*[A-Za-z_]\w*\s*=')
+
+
+def missing_end_expectation(logicals):
+    """Which block header a 'Missing end<kind> statement' error must name, given that the parser accepted every line
+    before the point where it gave up: the innermost block still open when an `endfunction` arrives while a block
+    opened inside that function is open, else the innermost open if/while/for at end of input, else the open
+    function. Returns (kind, logical number) or None when nothing is open. The scan follows the keyword lines only
+    (written from the language description, not from the parser)."""
+    stack = []
+    for lg in logicals:
+        if lg.dangling or _ASSIGN.match(lg.text):
+            continue
+        m = _OPEN_STRICT.match(lg.text)
+        if m:
+            stack.append((m.group(1) or m.group(2), lg.number))
+            continue
+        m = _CLOSE.match(lg.text)
+        if m:
+            kind = m.group(1)[3:]
+            if kind == 'function' and stack and stack[-1][0] != 'function':
+                return stack[-1]
+            if stack and stack[-1][0] == kind:
+                stack.pop()
+            else:
+                return None      # the parser reports an unmatched closer here, not a missing one
+    blocks = [e for e in stack if e[0] != 'function']
+    if blocks:
+        return blocks[-1]
+    return stack[-1] if stack else None
